@@ -65,7 +65,7 @@ package parse
 
 // ---- C15: @cwd/ paths are resolved against the working directory, everything else is kept ----
 //@ func File(cwd, rest)
-//@   props C15
+//@   props C15 C09
 //@   ensures err == nil && !strings.HasPrefix(StringValue(rest), "@cwd/") ==> result == StringValue(rest)
 //@   ensures !StringOK(rest) ==> err != nil
 // a @cwd/ path is anchored at the working directory: the result is absolute (callers decide "relative to the
